@@ -102,6 +102,9 @@ def _run_tool(tool, entry, data, a, b, fin, fout, workdir):
         with open(inp, 'wb') as f:
             f.write(data)
     argv0 = sys.argv
+    # every other input (by its length) runs the commands with their debugging switch: what a user adds when something
+    # looks wrong must not change what the command writes
+    dbg = ['--debug'] if len(data) % 2 else []
     try:
         with quiet():
             if tool in ('mci_ipm_encode', 'mci_ipm_param_encode'):
@@ -116,11 +119,11 @@ def _run_tool(tool, entry, data, a, b, fin, fout, workdir):
                                 out_format=fout)
                 elif entry == 'argv':
                     sys.argv = [tool, inp, '-o', outp, '--in-encoding', a, '--out-encoding', b, '--in-format', fin,
-                                '--out-format', fout]
+                                '--out-format', fout] + dbg
                     mod.cli_entry()
                 elif entry == 'argv_default_out':
                     sys.argv = [tool, inp, '--in-encoding', a, '--out-encoding', b, '--in-format', fin,
-                                '--out-format', fout]
+                                '--out-format', fout] + dbg
                     mod.cli_entry()
                     outp = inp + '.out'
             elif tool == 'mideu':
@@ -129,10 +132,13 @@ def _run_tool(tool, entry, data, a, b, fin, fout, workdir):
                     kw = dict(func=mideu.convert, input=inp, sourceformat=src)
                     if fin == 'vbs':
                         kw['no1014blocking'] = True
+                    if dbg:
+                        import logging
+                        kw['loglevel'] = logging.DEBUG
                     mideu.cli_run(**kw)
                 else:
                     args = ['convert', inp, '-s', src] + (['--no1014blocking'] if fin == 'vbs' else [])
-                    mideu.cli_entry(args)
+                    mideu.cli_entry(args + (['-d'] if dbg else ['-v'] if len(data) % 3 == 0 else []))
                 outp = inp + '.out'
             elif tool == 'paramconv':
                 src = 'ebcdic' if a == 'cp500' else 'ascii'
@@ -279,8 +285,29 @@ def enumerate_cases(tier, seed):
     return cases
 
 
+def large_cases(tier, seed):
+    """files beyond 1 MiB (nothing bounds the size of a clearing or parameter file): ~1.3 MB each"""
+    big = [SHAPES[i % len(SHAPES)] for i in range(4200)]
+    cases = [{'tool': 'mci_ipm_encode', 'entry': 'cli_run', 'a': 'cp500', 'b': 'latin_1', 'fin': '1014', 'fout': 'vbs',
+              'seq': big},
+             {'tool': 'mci_ipm_encode', 'entry': 'argv', 'a': 'latin_1', 'b': 'cp500', 'fin': 'vbs', 'fout': '1014',
+              'seq': big},
+             {'tool': 'mideu', 'entry': 'cli_run', 'a': 'cp500', 'b': 'latin_1', 'fin': '1014', 'fout': '1014',
+              'seq': big},
+             {'tool': 'mci_ipm_param_encode', 'entry': 'argv', 'a': 'cp500', 'b': 'latin_1', 'fin': '1014',
+              'fout': '1014', 'nrec': 9000, 'seed': seed},
+             {'tool': 'paramconv', 'entry': 'cli_run', 'a': 'latin_1', 'b': 'cp500', 'fin': '1014', 'fout': '1014',
+              'nrec': 9000, 'seed': seed}]
+    if tier == 'thorough':
+        cases += [dict(c, fin='vbs', fout='vbs') for c in cases]
+    return cases
+
+
 def tasks(tier, seed):
-    return [{'cases': ch} for ch in core.chunks(enumerate_cases(tier, seed), 64)]
+    ts = [{'cases': ch} for ch in core.chunks(enumerate_cases(tier, seed), 64)]
+    if core.AXIS == '':
+        ts += [{'cases': [c]} for c in large_cases(tier, seed)]
+    return ts
 
 
 def run_task(task):
